@@ -217,6 +217,18 @@ def run(ctx):
         chk.ob("C12.c", f"{ss.path} [state keyed by kind]", ok, f"each kind has its own remembered state ({detail})" if ok else f"two kinds share one remembered (generation, time) slot for equal keys ({detail}): a just-updated metric of one kind can be deleted because the other kind is stale", ss.loc())
 
     # ---------------- C12.b
+    # the timeout and the mask the decision table reads are the configured ones: Recency::new stores its parameters as given
+    # (Some(0) is a timeout of zero — `idle at the first unchanged observation` — not `no timeout`)
+    rn = (u.method("metrics_util::registry::recency::Recency", "new") or [None])[0]
+    if rn is not None:
+        r0 = strip_sym(Sym(rn).local(0))
+        if r0[0] == "agg" and len(r0) > 4 and r0[4]:
+            for fname_, v_ in zip(r0[4], r0[3]):
+                ty_ = ""
+                if sym_arg(strip_sym(v_)) is None and any(isinstance(x, tuple) and x and x[0] == "arg" for x in sym_walk(v_)) and not (sym_is_call(strip_sym(v_), "new") or "tuple(" in sym_str(v_)[:12]):
+                    chk.ob("C12.a", f"{rn.path} [{fname_} as configured]", False, f"Recency::new stores {sym_str(v_)[:70]} in `{fname_}` instead of the value it is given: some configurations (a zero timeout) silently become another one", rn.loc(), nontrivial=False)
+                elif sym_arg(strip_sym(v_)) is not None:
+                    chk.ob("C12.a", f"{rn.path} [{fname_} as configured]", True, f"`{fname_}` is the parameter unchanged", rn.loc(), nontrivial=False)
     wi = one_method(chk, "C12.b", u, GEN, "with_increment")
     if wi:
         b = wi.body
@@ -233,7 +245,10 @@ def run(ctx):
         ok = len(ops) == 1 and ops[0][1] == "load" and orderings_in(ops[0][3])[0] in ("Acquire", "SeqCst")
         chk.ob("C12.b", gg.path, ok, "get_generation loads gen with >= Acquire" if ok else "get_generation does not load gen with >= Acquire", gg.loc())
     for trait, methods in (("CounterFn", ("increment", "absolute")), ("GaugeFn", ("increment", "decrement", "set")), ("HistogramFn", ("record",))):
-        for mn in methods:
+        # every method the impl defines, the required ones and any provided one it overrides (record_many): an override
+        # that forwards straight to the inner storage updates the metric without marking it as updated
+        extra = sorted({f.name for f in u.fns if strip_generics(f.j.get("impl_self", "")).startswith(GEN) and (f.j.get("impl_trait") or "").endswith(trait) and f.name not in methods and f.dk == "AssocFn"})
+        for mn in tuple(methods) + tuple(extra):
             fs = [f for f in u.method(GEN, mn, trait)]
             if len(fs) != 1:
                 chk.unrecognised("C12.b", f"<anchor> <Generational<T> as {trait}>::{mn}", f"found {len(fs)}")
